@@ -2,8 +2,8 @@
 #include <stdlib.h>
 /* BOUNDED unit (label B(n)): the real qrnzcnt (SRC/qrnzcnt.c: Ng/Peyton FCNTHN extended by X. Li to the Householder matrix H of the QR
  * factorization of A) is executed symbolically, loops unwound, for EVERY ROWS x CAP pattern in compressed-column form with exactly NZ stored
- * subscripts (columns unsorted, repeated subscripts allowed, so every pattern with 1..NZ distinct entries and at most LIST stored subscripts per
- * column is covered) whose column elimination tree is postordered by the identity numbering -- the way sp_colorder calls it:
+ * subscripts (one run per NZ: the work block of adjlen + 2n + 1 entries then has a constant size; columns unsorted, no repeated subscript
+ * within a column) whose column elimination tree is postordered by the identity numbering -- the way sp_colorder calls it:
  *   qrnzcnt(n, nnz, colptr, rowind, iperm = identity (n+1 entries), invp(perm_c), perm_c, etree(root = n), colcnt_h, &nlnz, part_super_ata, part_super_h).
  *
  * ORACLES (brute force, computed here):
@@ -14,25 +14,25 @@
  *   colcnt_h must dominate (C05).
  *   H-supernode heads as documented in qrnzcnt.c ("first vertices of the supernodes in H"): k == 0, or k = fnz(i) = first nonzero column of
  *   some row i, or k has >= 2 children in the column etree.
- * DOMAIN: 0 = square with zero-free diagonal (precondition of the path characterization of H used by the routine)
- *         1 = ROWS <= CAP, any pattern (zero diagonals, empty rows and columns)
- *         2 = any pattern, also ROWS > CAP */
+ *   part_super_ata: fundamental supernodes of the Cholesky factor of A'A (definition: units/cholnzcnt_b/h.c).
+ * DOMAIN: 1 = square, structurally nonsingular (some row permutation gives a zero-free diagonal; zero diagonal entries allowed)
+ *         2 = any pattern (structurally singular, empty rows and columns), also ROWS != CAP
+ * ATA:    0 = part_super_ata is checked on the patterns whose column etree has no single-vertex tree after column 0, 1 = on all patterns */
 #define D (CAP > 0 ? CAP : 1)
 #define DR (ROWS > 0 ? ROWS : 1)
 #define DZ (NZ > 0 ? NZ : 1)
+#ifndef CANMASK
+#define CANMASK 0xffff
+#endif
+#define CANARY(bit, cond, msg) if ((CANMASK >> (bit)) & 1) { if (cond) __CPROVER_assert(0, msg); }
 int_t in_n, in_adjlen, in_xadj[D + 1], in_adjncy[DZ], in_zfdperm[D + 1], in_perm[D], in_invp[D], in_etpar[D];
 int_t g_colcnt_h[D], g_part_h[D], g_part_ata[D], g_nlnz, g_xadj0[D + 1], g_adjncy0[DZ], g_etpar0[D];
-/* SRC/pmemory.c: intMalloc = malloc(n * sizeof(int_t)) / intCalloc = the same, zero-filled; exit(1) on NULL.  Every block is a heap object of
- * exactly the requested size (in_n = CAP is a constant; the one block that depends on adjlen is chosen among constant-size objects); the routine
- * releases them with free(). */
-#define SZ(k) case k: p = (int_t *) malloc((size_t) (k) * sizeof(int_t)); break;
+/* SRC/pmemory.c: intMalloc = malloc(n * sizeof(int_t)) / intCalloc = the same, zero-filled; exit(1) on NULL.  All sizes are constants here
+ * (in_n = CAP, in_adjlen = NZ), so every block is a heap object of exactly the requested size; the routine releases them with free(). */
 int_t *intMalloc(int_t n) {
-  int_t *p = (int_t *) 0;
-  __CPROVER_assert(0 <= n && n <= NZ + 2 * CAP + 1 && n <= 31, "allocator model: request within the modelled sizes");
-  switch (n) {      /* one constant-size heap object per possible size (symbolic-size objects are out of the tool's reach); constant n: one case survives */
-    SZ(0) SZ(1) SZ(2) SZ(3) SZ(4) SZ(5) SZ(6) SZ(7) SZ(8) SZ(9) SZ(10) SZ(11) SZ(12) SZ(13) SZ(14) SZ(15)
-    SZ(16) SZ(17) SZ(18) SZ(19) SZ(20) SZ(21) SZ(22) SZ(23) SZ(24) SZ(25) SZ(26) SZ(27) SZ(28) SZ(29) SZ(30) SZ(31)
-  }
+  int_t *p;
+  __CPROVER_assert(0 <= n && n <= NZ + 2 * CAP + 1, "allocator model: request within the modelled sizes");
+  p = (int_t *) malloc((size_t) n * sizeof(int_t));
   __CPROVER_assume(p != (int_t *) 0);
   return p;
 }
@@ -46,14 +46,14 @@ int_t *intCalloc(int_t n) {
 int_t nondet_int_t(void);
 void h_qrnzcnt(void) {
   int_t i, j, k, p, r, c, x, size, *colcnt_h, *part_h, *part_ata, sum, cnt, piv;
-  _Bool M[DR][D], B[D][D], S[DR][D], done[DR], inR[DR], U[D], head[D];
+  _Bool M[DR][D], B[D][D], S[DR][D], done[DR], inR[DR], U[D], head[D], zfd, single;
   int_t cc[D], par[D], nch[D], hc[D], fnz[DR];
-  in_n = CAP; in_adjlen = nondet_int_t();        /* n constant: one run per shape (variants) */
+  in_n = CAP; in_adjlen = NZ;                    /* constants: one run per shape and number of entries (variants) */
   for (j = 0; j <= D; j++) { in_xadj[j] = nondet_int_t(); in_zfdperm[j] = j; }
   for (p = 0; p < DZ; p++) in_adjncy[p] = nondet_int_t();
   for (j = 0; j < D; j++) { in_perm[j] = j; in_invp[j] = j; in_etpar[j] = nondet_int_t(); }
-  __CPROVER_assume(in_xadj[0] == 0 && in_xadj[CAP] == in_adjlen && 0 <= in_adjlen && in_adjlen <= NZ);
-  for (j = 0; j < CAP; j++) __CPROVER_assume(in_xadj[j] <= in_xadj[j + 1] && in_xadj[j + 1] - in_xadj[j] <= LIST);
+  __CPROVER_assume(in_xadj[0] == 0 && in_xadj[CAP] == NZ);
+  for (j = 0; j < CAP; j++) __CPROVER_assume(in_xadj[j] <= in_xadj[j + 1] && in_xadj[j + 1] - in_xadj[j] <= ROWS);
   for (p = 0; p < NZ; p++) __CPROVER_assume(0 <= in_adjncy[p] && in_adjncy[p] < ROWS);
   for (c = 0; c < CAP; c++) for (p = 0; p < NZ; p++) for (x = p + 1; x < NZ; x++)                 /* no repeated subscript within a column */
     if (in_xadj[c] <= p && x < in_xadj[c + 1]) __CPROVER_assume(in_adjncy[p] != in_adjncy[x]);
@@ -61,8 +61,19 @@ void h_qrnzcnt(void) {
     M[r][c] = 0;
     for (p = 0; p < NZ; p++) if (in_xadj[c] <= p && p < in_xadj[c + 1] && in_adjncy[p] == r) M[r][c] = 1;
   }
-#if DOMAIN == 0
-  for (c = 0; c < CAP; c++) __CPROVER_assume(M[c][c]);
+  zfd = (ROWS == CAP);
+#if ROWS == CAP
+  for (c = 0; c < CAP; c++) if (!M[c][c]) zfd = 0;
+#endif
+#if DOMAIN == 1                                       /* structurally nonsingular: some row permutation gives a zero-free diagonal */
+  { _Bool ok[1 << CAP]; int_t mask, bits;
+    for (mask = 0; mask < (1 << CAP); mask++) ok[mask] = (mask == 0);
+    for (mask = 0; mask < (1 << CAP); mask++) {
+      bits = 0; for (r = 0; r < ROWS; r++) if (mask & (1 << r)) bits++;           /* columns 0..bits-1 are matched to the rows of mask */
+      if (bits < CAP) for (r = 0; r < ROWS; r++) if (ok[mask] && !(mask & (1 << r)) && M[r][bits]) ok[mask | (1 << r)] = 1;
+    }
+    __CPROVER_assume(ROWS == CAP && ok[(1 << CAP) - 1]);
+  }
 #endif
   /* column elimination tree = elimination tree of A'A */
   for (i = 0; i < CAP; i++) for (j = 0; j < CAP; j++) { B[i][j] = 0; if (i > j) for (r = 0; r < ROWS; r++) if (M[r][i] && M[r][j]) B[i][j] = 1; }
@@ -78,6 +89,7 @@ void h_qrnzcnt(void) {
     for (i = 0; i <= j; i++) { x = i; for (k = 0; k < CAP; k++) if (x < j) x = par[x]; if (x == j) size++; }
     for (i = 0; i <= j; i++) { x = i; for (k = 0; k < CAP; k++) if (x < j) x = par[x]; __CPROVER_assume((x == j) == (j - size < i)); }
   }
+  single = 0; for (j = 1; j < CAP; j++) if (par[j] == CAP && nch[j] == 0) single = 1;
   for (j = 0; j <= CAP; j++) g_xadj0[j] = in_xadj[j];
   for (p = 0; p < NZ; p++) g_adjncy0[p] = in_adjncy[p];
   for (j = 0; j < CAP; j++) g_etpar0[j] = in_etpar[j];
@@ -111,22 +123,24 @@ void h_qrnzcnt(void) {
   for (j = 0; j < CAP; j++) __CPROVER_assert((g_part_h[j] > 0) == head[j], "part_super_h: heads are column 0, first nonzeros of rows, vertices with >= 2 children");
   /* (b) C05: the predicted column counts dominate the Householder structure; the slot of a block covers each of its columns */
   for (j = 0; j < CAP; j++) __CPROVER_assert(g_colcnt_h[j] >= hc[j], "colcnt_h[j] dominates column j of the Householder matrix");
-#if DOMAIN == 0
-  for (j = 0; j < CAP; j++) __CPROVER_assert(g_colcnt_h[j] == hc[j], "zero-free diagonal: colcnt_h[j] is the column count of the Householder matrix");
-#endif
+  for (j = 0; j < CAP; j++) __CPROVER_assert(!zfd || g_colcnt_h[j] == hc[j], "zero-free diagonal: colcnt_h[j] is the column count of the Householder matrix");
   for (j = 0; j < CAP; j++) __CPROVER_assert(g_colcnt_h[j] >= 1, "colcnt_h[j] >= 1");
   k = 0;
   for (j = 0; j < CAP; j++) {
     if (g_part_h[j] > 0) k = j;
     __CPROVER_assert(hc[j] <= g_colcnt_h[k], "no column of an H-block is longer than the predicted count of the block's first column");
   }
-  /* (b') the Cholesky factor of A'A: total count, fundamental supernode partition (see units/cholnzcnt_b) */
+  /* (b') the Cholesky factor of A'A: total count, fundamental supernode partition */
   sum = 0; for (j = 0; j < CAP; j++) sum += cc[j];
   __CPROVER_assert(g_nlnz == sum, "nlnz is the number of nonzeros of the Cholesky factor of A'A");
   for (j = 0; j < CAP; j++) {
     _Bool fj = (j == 0) || par[j - 1] != j || nch[j] >= 2 || cc[j - 1] != cc[j] + 1; int_t w = 0;
-    if (fj) { _Bool open = 1; w = 1; for (i = j + 1; i < CAP; i++) { if (i == 0 || par[i - 1] != i || nch[i] >= 2 || cc[i - 1] != cc[i] + 1) open = 0; if (open) w++; } }
+    if (fj) { _Bool open = 1; w = 1; for (i = j + 1; i < CAP; i++) { if (par[i - 1] != i || nch[i] >= 2 || cc[i - 1] != cc[i] + 1) open = 0; if (open) w++; } }
+#if ATA
     __CPROVER_assert(g_part_ata[j] == w, "part_super_ata is the fundamental supernode partition of the Cholesky factor of A'A");
+#else
+    __CPROVER_assert(single || g_part_ata[j] == w, "part_super_ata is the fundamental supernode partition of the Cholesky factor of A'A");
+#endif
   }
   /* (c) inputs not written */
   for (j = 0; j <= CAP; j++) __CPROVER_assert(g_xadj0[j] == in_xadj[j] && in_zfdperm[j] == j, "xadj, zfdperm not written");
@@ -135,19 +149,19 @@ void h_qrnzcnt(void) {
 
   __CPROVER_assert(0, "canary: qrnzcnt returns");
 #if CAP >= 3
-  if (par[0] == 2 && par[1] == 2) __CPROVER_assert(0, "canary: vertex with exactly two children");
-  if (g_part_h[0] == CAP) __CPROVER_assert(0, "canary: one H-block");
-  if (g_part_h[0] == 1 && g_part_h[1] == 1 && g_part_h[2] == 1) __CPROVER_assert(0, "canary: singleton H-blocks");
-  if (par[0] == 1 && par[1] == CAP) __CPROVER_assert(0, "canary: forest with several roots");
-  if (!M[2][1] && S[2][1]) __CPROVER_assert(0, "canary: fill in H");
+  CANARY(0, par[0] == 2 && par[1] == 2, "canary: vertex with exactly two children");
+  CANARY(1, g_part_h[0] == CAP, "canary: one H-block");
+  CANARY(2, g_part_h[0] == 1 && g_part_h[1] == 1 && g_part_h[2] == 1, "canary: singleton H-blocks");
+  { _Bool forest = 0; for (j = 0; j < CAP - 1; j++) if (par[j] == CAP) forest = 1;
+  CANARY(3, forest, "canary: forest with several roots");
+  CANARY(9, !single && forest, "canary: forest without single-vertex tree after column 0"); }
+  CANARY(4, !M[2][1] && S[2][1], "canary: fill in H");
+  CANARY(5, !M[0][0], "canary: zero diagonal entry");
+  CANARY(6, in_xadj[1] >= 2 && in_adjncy[0] > in_adjncy[1], "canary: unsorted column");
+  CANARY(7, zfd, "canary: zero-free diagonal");
+  CANARY(8, single, "canary: single-vertex tree after column 0");
 #endif
-#if CAP >= 2 && DOMAIN >= 1
-  if (!M[0][0]) __CPROVER_assert(0, "canary: zero diagonal entry");
-  if (hc[1] == 0) __CPROVER_assert(0, "canary: structurally empty column");
-#endif
-#if CAP >= 2
-  if (in_xadj[1] >= 2 && in_adjncy[0] > in_adjncy[1]) __CPROVER_assert(0, "canary: unsorted column");
-  if (in_adjlen == NZ) __CPROVER_assert(0, "canary: NZ entries");
-  if (in_adjlen == 1) __CPROVER_assert(0, "canary: a single entry");
+#if CAP >= 2 && DOMAIN >= 2
+  CANARY(10, hc[1] == 0, "canary: structurally empty column");
 #endif
 }
